@@ -2,6 +2,7 @@ import GoguVerif.Go.Run
 import GoguVerif.Kinds.Common
 import GoguVerif.Spec.C10
 import GoguVerif.Model.BTree
+import GoguVerif.Gen.Consts
 /-! Driver wiring for C10: spec monitor (+ model correspondence). -/
 namespace GoguVerif.Kinds
 open GoguVerif
@@ -47,10 +48,64 @@ def modelStep (t : Option Model.BTree.Tree) (op : Op) : Option Model.BTree.Tree 
       | .height => (some t', none)
       | _ => (some t', some (renderOut o))
 
+/-! ### Structural invariant checked on the REAL tree (verif hook `VerifShape`)
+
+The shape the harness dumps — a leaf is the list of its keys, an internal node the list of
+`[separator, child]` pairs — is checked against the clauses of `Lemmas/C10.lean: NodeInv` (what the
+height-bound proof rests on): every node holds fewer than `maxChildren` entries, an internal node at
+least 2, a non-root node at least `maxChildren / 2`, from the second child on the separator is the
+smallest key of the child's subtree, and all keys ascend strictly.  A shape outside the invariant is
+NOT a violation of the property by itself (another split policy may still respect the height bound):
+it is reported through the correspondence channel — the code no longer has the structure the proof
+is about — and triggers the failing-input search. -/
+
+def half : Nat := Gen.maxChildren / 2
+
+/-- keys of a dumped subtree of height `h`, left to right (`none`: malformed dump) -/
+def shapeKeys : Nat → Val → Option (List Int)
+  | 0, v => v.ints?
+  | h + 1, .list cs =>
+    cs.foldr (fun c acc => match c, acc with
+      | .list [.int _, sub], some r => (shapeKeys h sub).map (· ++ r)
+      | _, _ => none) (some [])
+  | _, _ => none
+
+def shapeOk : Nat → Bool → Val → Bool
+  | 0, root, v =>
+    match v.ints? with
+    | some ks => decide (ks.length < Gen.maxChildren) && (root || decide (half ≤ ks.length))
+    | none => false
+  | h + 1, root, .list cs =>
+    decide (cs.length < Gen.maxChildren) && decide (2 ≤ cs.length) && (root || decide (half ≤ cs.length)) &&
+    (cs.zipIdx.all fun (c, i) => match c with
+      | .list [.int sep, sub] =>
+        shapeOk h false sub &&
+        (i == 0 || (match shapeKeys h sub with
+          | some (k :: _) => k == sep
+          | _ => false))
+      | _ => false)
+  | _, _, _ => false
+
+def ascending : List Int → Bool
+  | a :: b :: r => decide (a < b) && ascending (b :: r)
+  | _ => true
+
+def shapeInvariant (h : Nat) (v : Val) : Bool :=
+  shapeOk h true v && (match shapeKeys h v with | some ks => ascending ks | none => false)
+
 def kind : Kind where
   σ := MSt
   init := fun _ => some {}
   step := fun st l =>
+    if l.op == "shape" then
+      match l.res with
+      | [.atom "nohook"] => { st := st, tags := ["shape:nohook"] }
+      | [.int h, v] =>
+        if shapeInvariant h.toNat v then { st := st, tags := ["shape"] }
+        else { st := st, tags := ["shape:outside-invariant"]
+               model := some [.atom "a-tree-shape-satisfying-NodeInv(fill,separators,order)-of-Lemmas/C10"] }
+      | _ => { st := st, bad := some "btree shape line" }
+    else
     match parseOp l with
     | none => { st := st, bad := some s!"bad btree op {l.op}" }
     | some op =>
